@@ -102,12 +102,27 @@ def record_pure(tid: str, tt: list[list[int]], seed: int, kinds: list[str], per_
     spaces = all_spaces(n)
     events = []
 
+    class _Hang(Exception):
+        pass
+
+    def _alarm(_s, _f):
+        raise _Hang()
+
     def emit(e, fn):
+        import signal
+        old = signal.signal(signal.SIGALRM, _alarm)
+        signal.setitimer(signal.ITIMER_REAL, 20.0)       # watchdog: a pure call that does not return is reported, not waited for
         try:
             fn(e)
+        except _Hang:
+            e["raised"] = True
+            e["exc"] = "Hang: the call did not return within 20 s"
         except Exception as ex:  # noqa: BLE001
             e["raised"] = True
             e["exc"] = type(ex).__name__ + ": " + str(ex)[:100]
+        finally:
+            signal.setitimer(signal.ITIMER_REAL, 0)
+            signal.signal(signal.SIGALRM, old)
         events.append(e)
 
     def rand_space(p_free=0.5):
@@ -224,7 +239,18 @@ def record_pure(tid: str, tt: list[list[int]], seed: int, kinds: list[str], per_
         for _ in range(max(2, per_kind // 3)):
             e = _default(n)
             e["k"] = "sanitize"
-            chosen = rng.sample(pool, n) if rng.random() < 0.8 else [rng.choice(["x[", "x]", "x_", "x{"]) for _ in range(n)]
+            clash = [["x_", "x[", "x]", "_x_"], ["a.b", "a-b", "a_b", "_a_b"], ["q_", "q!", "q?", "q*"], ["_", "[", "]", "{"]]
+            r_ = rng.random()
+            if r_ < 0.6:
+                chosen = rng.sample(pool, n)
+            elif r_ < 0.9:
+                # names that collide after sanitizing, also twice in a row (x_, x[, x] -> x_, _x_, __x_)
+                base = rng.choice(clash)
+                chosen = (base[:n] if n <= 4 else base + rng.sample(pool, n - 4))
+                chosen = list(chosen)
+                rng.shuffle(chosen)
+            else:
+                chosen = [rng.choice(["x[", "x]", "x_", "x{"]) for _ in range(n)]
             if len(set(chosen)) < n:
                 chosen = rng.sample(pool, n)
 
